@@ -28,7 +28,7 @@ RULE = (
 CLASSES = [
     "int_float_same_key", "bool_int_same_key", "neg_zero", "list_values", "partial_key",
     "scalar_vs_mapping", "empty_mapping_leaf", "subset_ids", "subset_jobs", "subset_unknown_id",
-    "exclude_const_hit", "diff_0", "diff_1", "diff_many", "zero_jobs", "one_job", "removed_after_warm_up", "caller_modified_statepoint_copy", "rekeyed_then_original_recreated", "caller_reused_open_job_mapping",
+    "exclude_const_hit", "diff_0", "diff_1", "diff_many", "zero_jobs", "one_job", "removed_after_warm_up", "caller_modified_statepoint_copy", "rekeyed_then_original_recreated", "caller_reused_open_job_mapping", "subset_sliced_cursor",
 ]
 ASSUMPTIONS = [
     "schema values are grouped by exact Python type (bool, int, float, str, tuple for lists, NoneType)",
@@ -75,7 +75,7 @@ def cases(draw):
     return {
         "jobs": jobs,
         "subset": subset,
-        "subset_kind": draw(st.sampled_from(["ids", "jobs"])),
+        "subset_kind": draw(st.sampled_from(["ids", "jobs", "slice"])),
         "exclude_const": draw(st.booleans()),
         "removed": draw(st.lists(st.integers(0, 8), max_size=2)) if draw(st.integers(0, 3)) == 0 else [],
         "scribble": draw(st.booleans()),
@@ -273,6 +273,18 @@ def run_case(case, ctx):
                 arg.append("f" * 32 if i == n else "0123")
         sel = [sp for sp, i in zip(uniq, ids) if i in set(sel_ids) and i not in gone]
         cl.add("subset_ids" if case.get("subset_kind") == "ids" else "subset_jobs")
+        if case.get("subset_kind") == "slice":
+            # the selection is a slice of a jobs cursor -- one object, handed to detect_schema (twice) and to diff_jobs
+            cl.add("subset_sliced_cursor")
+            try:
+                order = [j.id for j in project.find_jobs()]
+                k = max(0, min(len(order), len(idx)))
+                arg = project.find_jobs()[0:k]
+                sel_ids = order[:k]
+                sel = [sp for sp, i in zip(uniq, ids) if i in set(sel_ids) and i not in gone]
+            except Exception as e:
+                mms.append(Mismatch("schema_raises", f"slicing find_jobs() raised {type(e).__name__}: {e}"))
+                return {"mismatches": mms, "classes": sorted(cl), "nontrivial": False}
     for exclude_const in (bool(case.get("exclude_const")), not bool(case.get("exclude_const"))):
         exp = expected_schema(sel, exclude_const)
         try:
@@ -312,6 +324,13 @@ def run_case(case, ctx):
                     if any(type(v) is not t for v in vs):
                         mms.append(Mismatch("schema_values", f"key {k!r}: group {t.__name__} holds {vs!r}"))
 
+    if case.get("subset_kind") == "slice" and arg is not None and not isinstance(arg, list):
+        try:
+            got = signac.diff_jobs(*arg)
+            if set(got) != {oracle.job_id(sp) for sp in sel}:
+                mms.append(Mismatch("diff_ids", f"diff_jobs(*<the sliced cursor already given to detect_schema>) has keys {sorted(got)}, the slice selects {sorted(oracle.job_id(sp) for sp in sel)}"))
+        except Exception as e:
+            mms.append(Mismatch("diff_raises", f"diff_jobs(*<sliced cursor>) raised {type(e).__name__}: {e}"))
     # ---- diff_jobs ----------------------------------------------------------
     for sub in case.get("diffs", []):
         if not n:
@@ -388,6 +407,8 @@ CONSTRUCTED = [
     {"jobs": [], "subset": None, "subset_kind": "ids", "exclude_const": True, "diffs": [[]]},
     {"jobs": [{"a": 0, "b": None}], "subset": None, "subset_kind": "ids", "exclude_const": True, "diffs": [[0]]},
     {"jobs": [{"a": 1, "b": 1}, {"a": 2, "b": 1}, {"a": 5, "b": 1}], "subset": None, "subset_kind": "ids", "exclude_const": True, "diffs": [[0, 1, 2, 3], [0, 3]], "rekey": 0, "rekey_via": "sp"},
+    {"jobs": [{"a": 1, "b": 1}, {"a": 2, "b": 1}, {"a": 5, "b": 2}], "subset": [0, 1], "subset_kind": "slice", "exclude_const": False, "diffs": [[0, 1]]},
+    {"jobs": [{"a": 1, "b": 1}, {"a": 2, "b": 1}, {"a": 5, "b": 2}], "subset": [0, 1, 2], "subset_kind": "slice", "exclude_const": True, "diffs": [[0, 2]]},
     {"jobs": [{"a": 1, "n": {"x": 1}}, {"a": 2, "n": {"x": 1}}], "subset": [0, 1, 2], "subset_kind": "jobs", "exclude_const": False, "diffs": [[2, 0]], "rekey": 1, "rekey_via": "update"},
     {"jobs": [{"a": 1, "n": {"x": 1, "l": [1, 2]}}, {"a": 2, "n": {"x": 2, "l": [1, 2]}}, {"a": 3, "n": {"x": 2, "l": []}}], "subset": None, "subset_kind": "ids", "exclude_const": True, "diffs": [[0, 1, 2], [1, 2]], "by_sp": True},
 ]
